@@ -55,6 +55,10 @@ func vhLeafX(t int, v []int, nl int) any {
 		return &vhAnyStruct{A: v[0], N: v[1]}
 	case 7:
 		return map[int]int{1: v[0], 2: v[1]}
+	case 12: // a pointer (possibly nil) as the leaf itself
+		return ptr(0)
+	case 13: // ... as a map value
+		return map[string]*int{"k1": ptr(0), "k2": ptr(1)}
 	case 9: // interface-typed elements holding a pointer (or nothing)
 		if nl&1 != 0 {
 			return []any{nil, v[1]}
@@ -103,13 +107,17 @@ func vhRefEqualX(t int, x, y any) (eq, known bool) {
 	case 5:
 		a, b := x.(vhPtrStruct), y.(vhPtrStruct)
 		eq = vhPtrEq(a.P, b.P) && a.N == b.N
-		known = a.P != nil && b.P != nil || !eq
 	case 6:
 		a, b := x.(*vhAnyStruct), y.(*vhAnyStruct)
 		eq = a.A == b.A && a.N == b.N
 	case 7:
 		a, b := x.(map[int]int), y.(map[int]int)
 		eq = a[1] == b[1] && a[2] == b[2]
+	case 12:
+		eq = vhPtrEq(x.(*int), y.(*int))
+	case 13:
+		a, b := x.(map[string]*int), y.(map[string]*int)
+		eq = vhPtrEq(a["k1"], b["k1"]) && vhPtrEq(a["k2"], b["k2"])
 	case 9:
 		a, b := x.([]any), y.([]any)
 		pa, _ := a[0].(*int)
@@ -195,6 +203,11 @@ func VH_C05_Hidden(p []int) {
 		verifAssert(x.IsEqual(nil) != nil, "condition-vs-nil")
 		verifAssert(x.IsEqual(Condition{}) != nil, "condition-vs-zero-condition")
 		verifAssert(x.IsEqual((*Condition)(nil)) != nil, "condition-vs-nil-pointer")
+		// ... in either direction, whichever side is the unusable one
+		var zc Condition
+		verifAssert(zc.IsEqual(x) != nil, "zero-condition-receiver")
+		var zs Stack
+		verifAssert(zs.IsEqual(And().Push(a)) != nil, "zero-stack-receiver")
 		s := And().Push(a)
 		verifAssert(s.IsEqual(x) != nil, "stack-vs-condition")
 		verifAssert(s.IsEqual(Stack{}) != nil, "stack-vs-zero-stack")
